@@ -46,10 +46,6 @@ func tcFragment(prog *parser.Program) (bool, string) {
 		case *parser.EventHandlerStmt:
 			walkList(n.Body.Statements)
 		case *parser.FuncDefStmt:
-			if n.VariadicParam != nil {
-				reason = "variadic function"
-				return
-			}
 			walkList(n.Body.Statements)
 		case *parser.FuncCall:
 			if !userFuncs[n.Name] && !(n.Name == "print" && stmtCall) && !tcBuiltins[n.Name] {
@@ -140,6 +136,10 @@ func tcSigs(prog *parser.Program) (sigs, globals string) {
 				sb.WriteString("-")
 			} else {
 				sb.WriteString(SerType(n.ReturnType))
+			}
+			if n.VariadicParam != nil {
+				// the variadic parameter is declared with its element type T (the body sees []T)
+				sb.WriteString(" " + SerType(n.VariadicParam.Type()))
 			}
 			sb.WriteString(") ")
 		case *parser.TypedDeclStmt:
@@ -251,6 +251,7 @@ func tcHandWritten() []string {
 		"x := str2num \"12\"\ny := str2num \"zz\"\nb := str2bool \"true\"\nprint x y b err errmsg\nm := {a:1}\nif has m \"a\"\n    del m \"a\"\nend\nprint m (abs -2) (floor 2.5) (ceil 2.5) (round 2.5) (sqrt 4) (min 1 2) (max 1 2) (pow 2 3) (sin 0) (cos 0) (log 1) (atan2 1 1)\n",
 		"move 10 20\nline 30 40\nrect 5 5\ncircle 3\nwidth 2\ncolor \"red\"\ncolour \"blue\"\nstroke \"green\"\nfill \"none\"\nlinecap \"round\"\ntext \"hi\"\nclear\nclear \"white\"\ngrid\ngridn 5 \"gray\"\ndash 1 2\ndash\nellipse 1 2 3\nellipse 1 2 3 4 5 6 7\nprint (hsl 10) (hsl 10 20 30 40)\n",
 		"printf \"%v %s\\n\" 1 \"a\"\ns := sprintf \"%5.2f|%v\" 1.5 [1 2]\nr := repr \"a\" [1] {k:true}\nw := split \"a,b\" \",\"\nn := (rand 5) + (rand1)\nprint s r w (len w) (n < 10)\n",
+		"func sum:num nums:num...\n    t := 0\n    for n := range nums\n        t = t + n\n    end\n    return t\nend\nfunc show strs:string...\n    print (len strs) strs\nend\nprint (sum) (sum 1) (sum 1 2 3)\nshow\nshow \"a\" \"b\"\nfunc anys xs:any...\n    print xs\nend\nanys 1 \"a\" [true]\n",
 		"test true\ntest 1 1\ntest [1] [1] \"arrays\"\ntest \"a\" \"a\"\nx := 0\non key k:string\n    x = x + (len k)\n    print k x\nend\non down x1:num _:num\n    print x1\nend\non animate\n    x = x + 1\nend\n",
 		"cls\nsleep 0\nl := read\nprint l\nif l == \"x\"\n    panic \"boom\"\nend\nexit 3\n",
 		"x := [] + [1]\ny := [[]] + [[2]]\nprint x y [] {}\n",
@@ -285,4 +286,10 @@ func tcNegative(d *Driver, src string) (asked bool, rejected bool) {
 		panic(err)
 	}
 	return true, strings.HasPrefix(ans, "TC no")
+}
+
+// TcOne: the checker's verdict on one program (development aid).
+func TcOne(d *Driver, src string) string {
+	v, in, why := tcCheck(d, src)
+	return fmt.Sprintf("verdict=%q inFragment=%v %s", v, in, why)
 }
